@@ -288,7 +288,7 @@ class Prop:
             lambda i, d, s, *_: (i % 4, None, None, None),                       # distinct strings a b ab A
             lambda i, d, s, *_: ((d + s) % 3, None, None, None),                 # clones in different parents
             lambda i, d, s, *_: (6 + (i % 2), None, None, None),                 # equal-comparing distinct objects (one clone group)
-            lambda i, d, s, *_: ([4, 0, 12, 4, 1][i % 5], None, [None, 7, None, "a", 3][i % 5], [3, None, 7, None, 11][i % 5]),
+            lambda i, d, s, *_: ([4, 0, 12, 4, 1][i % 5], None, [None, 7, None, "a", 3][i % 5], [3, 1, 7, None, 11][i % 5]),
             lambda i, d, s, *_: ([5, 9, 0, 5, 9][i % 5], None, [None, None, 0, None, ""][(i + d) % 5], None),   # falsy data / data_id
             lambda i, d, s, t: ((1 if not t else [0, 2, 3, 11][d % 4]), None, None, None),    # every leaf carries the same data
         ]
@@ -318,7 +318,7 @@ class Prop:
             nl = rng.choice([3, 5, len(UNIV)])
             labs = [rng.randrange(nl) for _ in range(n)]
             dids = [rng.choice([None, None, None, 7, 3, 0, "a", "k", ""]) if rng.random() < 0.3 else None for _ in range(n)]
-            nids = [rng.choice([3, 7, 11, 12]) if rng.random() < 0.2 else None for _ in range(n)]
+            nids = [rng.choice([1, 3, 7, 11, 12]) if rng.random() < 0.2 else None for _ in range(n)]
             typed = rng.random() < 0.25
             kinds = [rng.choice(["x", "y"]) if typed else None for _ in range(n)]
             nodes = _label(shape, lambda i, d, s, *_: (labs[i], kinds[i], dids[i], nids[i]))
